@@ -45,6 +45,7 @@ type failure struct {
 	Shrunk   int            `json:"shrink_executions"`
 	File     string         `json:"file,omitempty"`
 	Regen    bool           `json:"regen,omitempty"`
+	Instr    bool           `json:"instr,omitempty"`
 }
 
 type workerResult struct {
@@ -84,6 +85,7 @@ type propMeta struct {
 	Stub        []string `json:"stub"`
 	Assumptions []string `json:"assumptions"`
 	Race        bool     `json:"race"`
+	Instr       bool     `json:"instr"`
 	Exhaustive  bool     `json:"exhaustive"`
 	Required    []string `json:"required"`
 }
@@ -110,11 +112,35 @@ func die(code int, format string, a ...interface{}) {
 
 // build compiles the simulation test binary from /repo's current tree.
 func build(race bool, out string) error {
-	args := []string{"test", "-c", "-tags", "verif", "-o", out}
+	return buildFrom(race, out, "", "verif")
+}
+
+// buildInstr compiles the simulation against a copy of the library into which yield
+// points have been inserted by program (instrument.go); the copy is made from the
+// current working tree of /repo and lives next to the binary.
+func buildInstr(out string) ([]string, error) {
+	src := "/repo"
+	if r := os.Getenv("VERIF_REPO"); r != "" {
+		src = r
+	}
+	dst := out + ".repo"
+	os.RemoveAll(dst)
+	sites, err := instrumentRepo(src, dst)
+	if err != nil {
+		return nil, err
+	}
+	return sites, buildFrom(false, out, dst, "verif,verifinstr")
+}
+
+func buildFrom(race bool, out, repo, tags string) error {
+	args := []string{"test", "-c", "-tags", tags, "-o", out}
 	if race {
 		args = append(args, "-race")
 	}
-	if r := os.Getenv("VERIF_REPO"); r != "" && r != "/repo" {
+	if repo == "" {
+		repo = os.Getenv("VERIF_REPO")
+	}
+	if r := repo; r != "" && r != "/repo" {
 		// background sweeps against a snapshot of /repo (vp run --with-repo), so that
 		// scratch edits of /repo do not leak into them; the registered commands never set this
 		mod, err := os.ReadFile(filepath.Join(root, "go.mod"))
@@ -164,6 +190,8 @@ func main() {
 		os.Exit(replay(os.Args[2:]))
 	case "selftest":
 		os.Exit(selftest(os.Args[2:]))
+	case "instrument":
+		os.Exit(instrumentCmd(os.Args[2:]))
 	default:
 		die(2, "unknown subcommand %s", os.Args[1])
 	}
@@ -248,7 +276,7 @@ func check(args []string) int {
 		evidencePath = filepath.Join(work, "evidence.json")
 	}
 
-	results, crashes, code := runWorkers(bin, id, *tier, seed, *runs, *wall, nw, work, replayDir, false)
+	results, crashes, code := runWorkers(bin, id, *tier, seed, *runs, *wall, nw, work, replayDir, "")
 	if code == 2 {
 		return 2
 	}
@@ -260,7 +288,7 @@ func check(args []string) int {
 		}
 		var rc []failure
 		var rcode int
-		raceResults, rc, rcode = runWorkers(rbin, id, *tier, seed, *runs, *wall, nw, work, replayDir, true)
+		raceResults, rc, rcode = runWorkers(rbin, id, *tier, seed, *runs, *wall, nw, work, replayDir, "race")
 		if rcode == 2 {
 			nv := len(crashes)
 			for _, r := range results {
@@ -274,6 +302,36 @@ func check(args []string) int {
 			raceResults = nil
 		}
 		crashes = append(crashes, rc...)
+	}
+	var instrResults []workerResult
+	if meta.Instr && os.Getenv("VERIF_NO_INSTR") == "" {
+		// third build: against a scratch copy of the library with yield points inserted by
+		// program in front of every statement at which no mutex can be held
+		ibin := filepath.Join(work, "sim.instr.test")
+		sites, err := buildInstr(ibin)
+		if err != nil {
+			die(2, "instrumented build: %v", err)
+		}
+		instrSites = len(sites)
+		var ic []failure
+		var icode int
+		instrResults, ic, icode = runWorkers(ibin, id, *tier, seed, *runs, *wall, nw, work, replayDir, "instr")
+		if icode == 2 {
+			return 2
+		}
+		for i := range ic {
+			ic[i].Instr = true
+			if ic[i].File != "" {
+				if b, err := json.MarshalIndent(ic[i], "", " "); err == nil {
+					os.WriteFile(ic[i].File, b, 0o644)
+				}
+			}
+		}
+		crashes = append(crashes, ic...)
+		raceResults = append(raceResults, instrResults...)
+		for _, r := range instrResults {
+			instrEvals += r.Evals
+		}
 	}
 
 	known := loadKnown()
@@ -318,7 +376,8 @@ func loadKnown() []knownFinding {
 
 // runWorkers fans the runs out. It returns the workers' results, failures
 // synthesised from crashed workers, and 2 on harness trouble.
-func runWorkers(bin, id, tier string, seed int64, runs, wall, nw int, work, replayDir string, race bool) ([]workerResult, []failure, int) {
+func runWorkers(bin, id, tier string, seed int64, runs, wall, nw int, work, replayDir string, mode string) ([]workerResult, []failure, int) {
+	race := mode == "race"
 	var wg sync.WaitGroup
 	results := make([]workerResult, nw)
 	type wstat struct {
@@ -328,8 +387,8 @@ func runWorkers(bin, id, tier string, seed int64, runs, wall, nw int, work, repl
 	}
 	stats := make([]wstat, nw)
 	suffix := ""
-	if race {
-		suffix = ".race"
+	if mode != "" {
+		suffix = "." + mode
 	}
 	for i := 0; i < nw; i++ {
 		wg.Add(1)
@@ -349,6 +408,9 @@ func runWorkers(bin, id, tier string, seed int64, runs, wall, nw int, work, repl
 			if race {
 				rl := filepath.Join(work, fmt.Sprintf("race%d", i))
 				env = append(env, "VERIF_RACE=1", "GORACE=halt_on_error=0 log_path="+rl, "VERIF_RACELOG="+rl)
+			}
+			if mode == "instr" {
+				env = append(env, "VERIF_INSTR=1")
 			}
 			// A run whose fake clock never advances is ended by the worker's real-time
 			// watchdog. If the dump shows no goroutine waiting for a mutex, the stall is
@@ -511,12 +573,13 @@ func runWorkers(bin, id, tier string, seed int64, runs, wall, nw int, work, repl
 }
 
 var (
-	abandonedMu        sync.Mutex
-	abandoned          []string
-	abandonedMutex     int
-	abandonedMutexDump string
-	freezeFailures     int
-	freezeCrashes      []failure
+	instrSites, instrEvals int
+	abandonedMu            sync.Mutex
+	abandoned              []string
+	abandonedMutex         int
+	abandonedMutexDump     string
+	freezeFailures         int
+	freezeCrashes          []failure
 )
 
 // properties with a "no deadlock" clause of their own
@@ -685,7 +748,7 @@ func report(id, tier string, seed int64, meta *propMeta, results, raceResults []
 		}
 	}
 	add(results)
-	raceEvals := 0
+	raceEvals := -instrEvals
 	for _, r := range raceResults {
 		raceEvals += r.Evals
 	}
@@ -736,29 +799,31 @@ func report(id, tier string, seed int64, meta *propMeta, results, raceResults []
 		}
 	}
 	cov := map[string]interface{}{
-		"evaluations":                    evals,
-		"distinct_nontrivial":            len(nontrivial),
-		"rule":                           meta.Rule,
-		"samples":                        samples,
-		"runs_per_hour":                  int64(rph),
-		"seeds":                          []int64{seed},
-		"simulated_time_s":               float64(simNanos) / 1e9,
-		"faults_fired":                   faults,
-		"probes_hit":                     probes,
-		"probes_zero":                    zero,
-		"distinct_interleavings":         len(shapes),
-		"interleaving_measure":           "distinct hashes of the per-run sequence of (actor, event kind) in fake-time order",
-		"components_real":                meta.Real,
-		"components_stub":                meta.Stub,
-		"strata":                         strata,
-		"systematic_sweep_size":          sweepSize,
-		"systematic_sweep_done":          sweepDone,
-		"seeded_budget_done":             completed,
-		"race_build_evaluations":         raceEvals,
-		"known_finding_hits":             knownHits,
-		"required_strata":                meta.Required,
-		"runs_abandoned_to_the_watchdog": abandoned,
-		"workers":                        len(results),
+		"evaluations":                            evals,
+		"distinct_nontrivial":                    len(nontrivial),
+		"rule":                                   meta.Rule,
+		"samples":                                samples,
+		"runs_per_hour":                          int64(rph),
+		"seeds":                                  []int64{seed},
+		"simulated_time_s":                       float64(simNanos) / 1e9,
+		"faults_fired":                           faults,
+		"probes_hit":                             probes,
+		"probes_zero":                            zero,
+		"distinct_interleavings":                 len(shapes),
+		"interleaving_measure":                   "distinct hashes of the per-run sequence of (actor, event kind) in fake-time order",
+		"components_real":                        meta.Real,
+		"components_stub":                        meta.Stub,
+		"strata":                                 strata,
+		"systematic_sweep_size":                  sweepSize,
+		"systematic_sweep_done":                  sweepDone,
+		"seeded_budget_done":                     completed,
+		"race_build_evaluations":                 raceEvals,
+		"inserted_yield_point_build_evaluations": instrEvals,
+		"inserted_yield_points":                  instrSites,
+		"known_finding_hits":                     knownHits,
+		"required_strata":                        meta.Required,
+		"runs_abandoned_to_the_watchdog":         abandoned,
+		"workers":                                len(results),
 	}
 	if meta.Exhaustive && sweepDone {
 		cov["exhaustive"] = false // exhaustive over the generated corpus only, not over all inputs
@@ -821,7 +886,11 @@ func replay(args []string) int {
 	defer os.RemoveAll(work)
 	bin := filepath.Join(work, "sim.test")
 	race := f.Rule == "C20.race"
-	if err := build(race, bin); err != nil {
+	if f.Instr {
+		if _, err := buildInstr(bin); err != nil {
+			die(2, "%v", err)
+		}
+	} else if err := build(race, bin); err != nil {
 		die(2, "%v", err)
 	}
 	abs, _ := filepath.Abs(path)
@@ -831,6 +900,9 @@ func replay(args []string) int {
 	if race {
 		rl := filepath.Join(work, "race")
 		cmd.Env = append(cmd.Env, "VERIF_RACE=1", "GORACE=halt_on_error=0 log_path="+rl, "VERIF_RACELOG="+rl)
+	}
+	if f.Instr {
+		cmd.Env = append(cmd.Env, "VERIF_INSTR=1")
 	}
 	if f.Digest == "freeze" {
 		// the recorded run stopped the simulated clock: it reproduces when it does so again,
@@ -882,7 +954,22 @@ func selftest(args []string) int {
 	}
 	summary := map[string]interface{}{}
 	bad := 0
-	for _, id := range ids {
+	plainBin := bin
+	ibin := ""
+	for _, key := range ids {
+		// "C20+instr": the build with inserted yield points
+		id := strings.TrimSuffix(key, "+instr")
+		instr := id != key
+		bin = plainBin
+		if instr {
+			if ibin == "" {
+				ibin = filepath.Join(work, "sim.instr.test")
+				if _, err := buildInstr(ibin); err != nil {
+					die(2, "%v", err)
+				}
+			}
+			bin = ibin
+		}
 		digests := make([][]string, procs)
 		var wg sync.WaitGroup
 		sem := make(chan struct{}, 16)
@@ -898,6 +985,9 @@ func selftest(args []string) int {
 				cmd.Env = append(os.Environ(), "VERIF_PROP="+id, "VERIF_TIER=quick", "VERIF_SEED=7", "VERIF_WORKER=0", "VERIF_NWORKERS=1",
 					fmt.Sprintf("VERIF_RUNS=%d", runs), "VERIF_NOSWEEP=1", "VERIF_WALL=600", "VERIF_OUT="+out, "VERIF_SELFTEST=1", "GOMAXPROCS="+gmp,
 					"VERIF_KNOWN="+filepath.Join(root, "known_findings.json"), "VERIF_SHRINK_BUDGET=0")
+				if instr {
+					cmd.Env = append(cmd.Env, "VERIF_INSTR=1")
+				}
 				cmd.Run()
 				b, err := os.ReadFile(out)
 				var r workerResult
@@ -934,6 +1024,7 @@ func selftest(args []string) int {
 				}
 			}
 		}
+		id = key
 		summary[id] = map[string]interface{}{"executions_per_process": n, "processes": procs, "gomaxprocs": []int{1, 4, 16}, "diverging_runs": diverged}
 		fmt.Printf("selftest %s: %d executions x %d processes, %d diverging\n", id, n, procs, diverged)
 		bad += diverged
